@@ -1,8 +1,417 @@
-// C18 harness part (stub until built)
-use crate::verif::vx::report::Report;
+// C18: a subscriber that takes a snapshot and then applies the live events
+// ends with exactly the Adj-RIB-In held by the RIB — for every interleaving of
+// the subscribe call with concurrent route updates.
+//
+// Stateless schedule exploration (vx::sched): real OS threads run the real
+// TableManager methods; scheduling points are the cfg-guarded hooks before
+// every shard lock and around every subscribers.load()/rcu() in
+// table_manager.rs.  Iterative preemption bounding.
 
-pub(crate) fn run(_replay: Option<&str>) -> Report {
+use super::super::*;
+use super::common::*;
+use crate::verif::vx::report::{Report, Violation};
+use crate::verif::vx::sched;
+use crate::table_manager::{PeerDownData, Subscription};
+use std::collections::{BTreeMap, BTreeSet};
+use std::net::{IpAddr, Ipv4Addr};
+
+fn src(n: u8) -> Arc<table::Source> {
+    Arc::new(table::Source::new(
+        IpAddr::V4(Ipv4Addr::new(10, 8, 0, n)),
+        IpAddr::V4(Ipv4Addr::new(10, 8, 0, 254)),
+        65000 + n as u32,
+        65000,
+        Ipv4Addr::new(10, 8, 0, n),
+        table::PeerRole::Ebgp,
+    ))
+}
+
+fn v4net(k: u8) -> packet::Nlri {
+    packet::Nlri::V4(packet::bgp::Ipv4Net { addr: Ipv4Addr::new(10, 20, k, 0), mask: 24 })
+}
+
+fn attrs(tag: u32) -> Arc<Vec<packet::Attribute>> {
+    Arc::new(vec![
+        packet::Attribute::new_with_value(packet::Attribute::ORIGIN, 0).unwrap(),
+        packet::Attribute::empty_as_path(),
+        packet::Attribute::new_with_value(packet::Attribute::MULTI_EXIT_DESC, tag).unwrap(),
+    ])
+}
+
+fn nh() -> Option<bgp::Nexthop> {
+    Some(bgp::Nexthop::V4(Ipv4Addr::new(10, 8, 0, 1)))
+}
+
+/// Two prefixes that land on shard 0 and one on shard 1 of a 2-shard manager.
+fn pick_prefixes(tables: &TableManager) -> (Vec<u8>, Vec<u8>) {
+    let mut s0 = Vec::new();
+    let mut s1 = Vec::new();
+    let probe = src(200);
+    for k in 0..40u8 {
+        tables.insert_route(probe.clone(), Family::IPV4, packet::PathNlri::new(v4net(k)), nh(), attrs(0), None, 0);
+        let in0 = tables.shards[0].lock().unwrap().rtable.iter_reach(Family::IPV4).any(|r| r.net.nlri == v4net(k));
+        tables.remove_route(probe.clone(), Family::IPV4, packet::PathNlri::new(v4net(k)), None, 0);
+        if in0 {
+            s0.push(k);
+        } else {
+            s1.push(k);
+        }
+    }
+    (s0, s1)
+}
+
+type Key = (IpAddr, String, u32);
+
+fn attr_fp(a: &Arc<Vec<packet::Attribute>>) -> String {
+    a.iter().map(|x| crate::verif::vx::report::hex(&x.encode_to_bytes())).collect::<Vec<_>>().join(".")
+}
+
+struct Folded {
+    pre: BTreeMap<Key, String>,
+    post: BTreeMap<Key, String>,
+    n_events: usize,
+    trace: Vec<String>,
+}
+
+fn fold(rx: &mut mpsc::UnboundedReceiver<BgpEvent>) -> Folded {
+    let mut f = Folded { pre: BTreeMap::new(), post: BTreeMap::new(), n_events: 0, trace: Vec::new() };
+    while let Ok(ev) = rx.try_recv() {
+        f.n_events += 1;
+        match ev {
+            BgpEvent::AdjRibIn(c) | BgpEvent::AdjRibInPost(c) if false => {
+                let _ = c;
+            }
+            BgpEvent::AdjRibIn(c) => {
+                for n in &c.nlris {
+                    let k = (c.source.remote_addr, format!("{}", n.nlri), n.path_id);
+                    f.trace.push(format!("pre:{}:{}:{}", c.source.remote_addr, n.nlri, if c.attrs.is_some() { "reach" } else { "withdraw" }));
+                    match &c.attrs {
+                        Some(a) => {
+                            f.pre.insert(k, attr_fp(a));
+                        }
+                        None => {
+                            f.pre.remove(&k);
+                        }
+                    }
+                }
+            }
+            BgpEvent::AdjRibInPost(c) => {
+                for n in &c.nlris {
+                    let k = (c.source.remote_addr, format!("{}", n.nlri), n.path_id);
+                    f.trace.push(format!("post:{}:{}:{}", c.source.remote_addr, n.nlri, if c.attrs.is_some() { "reach" } else { "withdraw" }));
+                    match &c.attrs {
+                        Some(a) => {
+                            f.post.insert(k, attr_fp(a));
+                        }
+                        None => {
+                            f.post.remove(&k);
+                        }
+                    }
+                }
+            }
+            BgpEvent::PeerDown(d) => {
+                f.trace.push(format!("peerdown:{}", d.peer_addr));
+                f.pre.retain(|k, _| k.0 != d.peer_addr);
+                f.post.retain(|k, _| k.0 != d.peer_addr);
+            }
+            BgpEvent::EndOfSnapshot => f.trace.push("end-of-snapshot".into()),
+            _ => {}
+        }
+    }
+    f
+}
+
+fn rib(tables: &TableManager) -> (BTreeMap<Key, String>, BTreeMap<Key, String>) {
+    let mut pre = BTreeMap::new();
+    let mut post = BTreeMap::new();
+    for shard in &tables.shards {
+        let t = shard.lock().unwrap();
+        for r in t.rtable.iter_reach(Family::IPV4) {
+            pre.insert((r.source.remote_addr, format!("{}", r.net.nlri), r.net.path_id), attr_fp(&r.attr));
+        }
+        for r in t.rtable.iter_reach_post(Family::IPV4) {
+            post.insert((r.source.remote_addr, format!("{}", r.net.nlri), r.net.path_id), attr_fp(&r.attr));
+        }
+    }
+    (pre, post)
+}
+
+fn reject_all_import() -> Arc<table::PolicyAssignment> {
+    let mut pt = table::PolicyTable::new();
+    pt.add_statement("s", Vec::new(), Some(table::Disposition::Reject), table::Actions::default()).unwrap();
+    pt.add_policy("p", vec!["s".to_string()]).unwrap();
+    pt.build_assignment(None, "global", table::PolicyDirection::Import, table::Disposition::Accept, vec!["p".to_string()]).unwrap()
+}
+
+struct Scenario {
+    name: &'static str,
+    /// builds (tables, thread bodies, slot that will hold the subscription)
+    #[allow(clippy::type_complexity)]
+    build: fn(&(Vec<u8>, Vec<u8>)) -> (Arc<TableManager>, Vec<Box<dyn FnOnce() + Send>>, Arc<std::sync::Mutex<Option<Subscription>>>),
+}
+
+fn subscriber(tables: &Arc<TableManager>, slot: &Arc<std::sync::Mutex<Option<Subscription>>>) -> Box<dyn FnOnce() + Send> {
+    let (t, s) = (tables.clone(), slot.clone());
+    Box::new(move || {
+        let sub = t.subscribe(true);
+        *s.lock().unwrap() = Some(sub);
+    })
+}
+
+fn base(px: &(Vec<u8>, Vec<u8>)) -> (Arc<TableManager>, Arc<std::sync::Mutex<Option<Subscription>>>) {
+    let tables = Arc::new(TableManager::new(2));
+    // pre-existing routes on both shards
+    tables.insert_route(src(1), Family::IPV4, packet::PathNlri::new(v4net(px.0[0])), nh(), attrs(1), None, 0);
+    tables.insert_route(src(2), Family::IPV4, packet::PathNlri::new(v4net(px.1[0])), nh(), attrs(1), None, 0);
+    (tables, Arc::new(std::sync::Mutex::new(None)))
+}
+
+fn scenarios() -> Vec<Scenario> {
+    vec![
+        Scenario {
+            name: "sub||insert-remove-insert(same shard)",
+            build: |px| {
+                let (tables, slot) = base(px);
+                let a = src(1);
+                let (p1, p2) = (px.0[1], px.0[2]);
+                let t = tables.clone();
+                let w: Box<dyn FnOnce() + Send> = Box::new(move || {
+                    t.insert_route(a.clone(), Family::IPV4, packet::PathNlri::new(v4net(p1)), nh(), attrs(2), None, 0);
+                    t.remove_route(a.clone(), Family::IPV4, packet::PathNlri::new(v4net(p1)), None, 0);
+                    t.insert_route(a.clone(), Family::IPV4, packet::PathNlri::new(v4net(p2)), nh(), attrs(3), None, 0);
+                });
+                let s = subscriber(&tables, &slot);
+                (tables, vec![s, w], slot)
+            },
+        },
+        Scenario {
+            name: "sub||insert(shard0)||insert+peer-drop(shard1)",
+            build: |px| {
+                let (tables, slot) = base(px);
+                let (a, b) = (src(1), src(2));
+                let (p1, q1) = (px.0[1], px.1[1]);
+                let t1 = tables.clone();
+                let w1: Box<dyn FnOnce() + Send> = Box::new(move || {
+                    t1.insert_route(a.clone(), Family::IPV4, packet::PathNlri::new(v4net(p1)), nh(), attrs(2), None, 0);
+                });
+                let t2 = tables.clone();
+                let w2: Box<dyn FnOnce() + Send> = Box::new(move || {
+                    t2.insert_route(b.clone(), Family::IPV4, packet::PathNlri::new(v4net(q1)), nh(), attrs(2), None, 0);
+                    // what session_loop does when the session ends without GR
+                    t2.unregister_peer(b.remote_addr, &[Family::IPV4], &[]);
+                    t2.peer_down(PeerDownData { peer_addr: b.remote_addr, peer_asn: b.remote_asn, peer_id: b.router_id, uptime: 0, reason: rustybgp_packet::bmp::PeerDownReason::RemoteUnexpected });
+                });
+                let s = subscriber(&tables, &slot);
+                (tables, vec![s, w1, w2], slot)
+            },
+        },
+        Scenario {
+            name: "sub||soft_reset_in(policy changed)",
+            build: |px| {
+                let (tables, slot) = base(px);
+                // a second route of peer 1 on the other shard
+                tables.insert_route(src(1), Family::IPV4, packet::PathNlri::new(v4net(px.1[2])), nh(), attrs(1), None, 0);
+                tables.import_policy.store(Some(reject_all_import()));
+                let t = tables.clone();
+                let addr = src(1).remote_addr;
+                let w: Box<dyn FnOnce() + Send> = Box::new(move || {
+                    t.soft_reset_in(addr);
+                });
+                let s = subscriber(&tables, &slot);
+                (tables, vec![s, w], slot)
+            },
+        },
+        Scenario {
+            name: "sub||replace(shard0)||remove(shard1)",
+            build: |px| {
+                let (tables, slot) = base(px);
+                let (a, b) = (src(1), src(2));
+                let (p0, q0) = (px.0[0], px.1[0]);
+                let t1 = tables.clone();
+                let w1: Box<dyn FnOnce() + Send> = Box::new(move || {
+                    t1.insert_route(a.clone(), Family::IPV4, packet::PathNlri::new(v4net(p0)), nh(), attrs(9), None, 0);
+                });
+                let t2 = tables.clone();
+                let w2: Box<dyn FnOnce() + Send> = Box::new(move || {
+                    t2.remove_route(b.clone(), Family::IPV4, packet::PathNlri::new(v4net(q0)), None, 0);
+                });
+                let s = subscriber(&tables, &slot);
+                (tables, vec![s, w1, w2], slot)
+            },
+        },
+    ]
+}
+
+fn check_one(sc: &Scenario, px: &(Vec<u8>, Vec<u8>), prefix: &[usize]) -> Result<(sched::Execution, Vec<(String, String)>, String), String> {
+    let (tables, bodies, slot) = (sc.build)(px);
+    let x = sched::run_once(bodies, prefix)?;
+    let mut out = Vec::new();
+    let mut outcome = String::new();
+    if x.deadlock {
+        out.push(("C18/deadlock".to_string(), format!("{}: no enabled thread", sc.name)));
+        return Ok((x, out, "deadlock".into()));
+    }
+    let mut guard = slot.lock().unwrap();
+    let Some(sub) = guard.as_mut() else {
+        return Err("subscriber thread did not store its subscription".into());
+    };
+    let f = fold(&mut sub.rx);
+    let (pre, post) = rib(&tables);
+    outcome = f.trace.join(",");
+    let diff = |want: &BTreeMap<Key, String>, got: &BTreeMap<Key, String>| -> Option<(&'static str, String)> {
+        for (k, v) in want {
+            match got.get(k) {
+                None => return Some(("missing", format!("{:?} is in the RIB but neither in the snapshot nor in the live stream", k))),
+                Some(g) if g != v => return Some(("outdated", format!("{:?}: the last event delivered is not the current state", k))),
+                _ => {}
+            }
+        }
+        for k in got.keys() {
+            if !want.contains_key(k) {
+                return Some(("phantom", format!("{:?} is in the subscriber's view but not in the RIB", k)));
+            }
+        }
+        None
+    };
+    if let Some((class, what)) = diff(&pre, &f.pre) {
+        out.push((format!("C18/adj-rib-in-pre/{class}"), format!("{}: {what}; events: {}", sc.name, outcome)));
+    }
+    if let Some((class, what)) = diff(&post, &f.post) {
+        out.push((format!("C18/adj-rib-in-post/{class}"), format!("{}: {what}; events: {}", sc.name, outcome)));
+    }
+    Ok((x, out, outcome))
+}
+
+fn sched_str(x: &sched::Execution) -> String {
+    x.points.iter().map(|(en, c, l)| format!("T{}@{}", en[*c], l[*c])).collect::<Vec<_>>().join(" ")
+}
+
+pub(crate) fn run(replay: Option<&str>) -> Report {
     let mut rep = Report::new("C18", "hd-c18");
-    rep.machinery_error = Some("harness not built yet".into());
+    let probe = TableManager::new(2);
+    let px = pick_prefixes(&probe);
+    if px.0.len() < 3 || px.1.len() < 3 {
+        rep.machinery_error = Some("could not find prefixes for both shards".into());
+        return rep;
+    }
+    let scs = scenarios();
+    if let Some(case) = replay {
+        // "scenario-index#choice,choice,..."
+        let mut it = case.splitn(3, '#');
+        let si: usize = it.next().and_then(|s| s.parse().ok()).unwrap_or(0);
+        let prefix: Vec<usize> = it.next().unwrap_or("").split(',').filter_map(|s| s.parse().ok()).collect();
+        match check_one(&scs[si.min(scs.len() - 1)], &px, &prefix) {
+            Ok((x, out, outcome)) => {
+                eprintln!("replay schedule: {}\n  events: {}", sched_str(&x), outcome);
+                for (sig, what) in out {
+                    rep.violation(Violation { sig, what, case: case.to_string() });
+                }
+            }
+            Err(e) => rep.machinery_error = Some(e),
+        }
+        rep.evaluations = 1;
+        return rep;
+    }
+    let thorough = rep.thorough();
+    let bound = if thorough { 3 } else { 2 };
+    let cap: u64 = if thorough { 400_000 } else { 20_000 };
+    rep.rule = format!("stateless exploration of ALL schedules with <= {bound} preemptions (iterative bounding 0..{bound}) of real OS threads running real TableManager methods under a baton scheduler; scheduling points = hooks before every shard lock and around every subscribers.load()/rcu(); 4 scenarios (subscribe(snapshot) vs insert/remove/replace on same and other shard, peer drop + PeerDown, soft_reset_in under a changed import policy); oracle after every execution: fold(snapshot + live events) == Adj-RIB-In pre/post policy of all shards; non-trivial = distinct delivered event sequence");
+    rep.notes.push("assume: std::sync::Mutex, arc-swap and tokio unbounded channels are linearizable at hook granularity; weak-memory effects are not explored".into());
+    rep.notes.push("assume: 'peer-down only after peer-up' is not asserted at the TableManager level (the initial PeerUp burst is produced by the BMP client from Global.peers, not by the subscription)".into());
+    let mut outcomes: BTreeSet<String> = BTreeSet::new();
+    let budget_s: u64 = std::env::var("VERIF_C18_SECS").ok().and_then(|s| s.parse().ok()).unwrap_or(if thorough { 2400 } else { 48 });
+    let n_sc = scs.len() as u64;
+    for (si, sc) in scs.iter().enumerate() {
+        let t_sc = std::time::Instant::now();
+        let mut total = 0u64;
+        let mut nviol = 0u64;
+        let mut merr: Option<String> = None;
+        let mut seen: BTreeSet<Vec<usize>> = BTreeSet::new();
+        let mut timed_out = false;
+        let mut completed_bound: i64 = -1;
+        for b in 0..=bound {
+            // DFS with bound b (re-runs lower bounds' schedules; counted once via `seen`)
+            let mut stack: Vec<Vec<usize>> = vec![vec![]];
+            while let Some(prefix) = stack.pop() {
+                if total >= cap || t_sc.elapsed().as_secs() >= budget_s / n_sc {
+                    timed_out = true;
+                    break;
+                }
+                let (x, out, outcome) = match check_one(sc, &px, &prefix) {
+                    Ok(r) => r,
+                    Err(e) => {
+                        merr = Some(e);
+                        break;
+                    }
+                };
+                let choices: Vec<usize> = x.points.iter().map(|(_, c, _)| *c).collect();
+                let fresh = seen.insert(choices.clone());
+                if fresh {
+                    total += 1;
+                    outcomes.insert(format!("{si}:{outcome}"));
+                    rep.sample(total, || format!("{} :: {} :: events {}", sc.name, sched_str(&x), outcome));
+                    if !out.is_empty() {
+                        // believe a failure only if the same schedule fails identically twice
+                        let again = check_one(sc, &px, &choices);
+                        match again {
+                            Ok((_, out2, outcome2)) if outcome2 == outcome && out2.len() == out.len() => {
+                                nviol += 1;
+                                for (sig, what) in out {
+                                    rep.violation(Violation { sig, what: format!("{what}; schedule: {}", sched_str(&x)), case: format!("{si}#{}#{}", choices.iter().map(|c| c.to_string()).collect::<Vec<_>>().join(","), sc.name) });
+                                }
+                            }
+                            Ok(_) => {
+                                merr = Some(format!("schedule replay was not deterministic for {}", sc.name));
+                                break;
+                            }
+                            Err(e) => {
+                                merr = Some(e);
+                                break;
+                            }
+                        }
+                    }
+                }
+                for i in prefix.len()..x.points.len() {
+                    let (en, _, _) = &x.points[i];
+                    for alt in 1..en.len() {
+                        // preemptions up to and including this alternative
+                        let mut n = 0usize;
+                        let mut last: Option<usize> = None;
+                        for (j, (e, c, _)) in x.points.iter().enumerate().take(i + 1) {
+                            let ch = if j == i { alt } else { *c };
+                            if let Some(l) = last {
+                                if e.first() == Some(&l) && ch != 0 {
+                                    n += 1;
+                                }
+                            }
+                            last = Some(e[ch]);
+                        }
+                        if n > b {
+                            continue;
+                        }
+                        let mut p: Vec<usize> = x.points[..i].iter().map(|(_, c, _)| *c).collect();
+                        p.push(alt);
+                        stack.push(p);
+                    }
+                }
+            }
+            if merr.is_some() || timed_out {
+                break;
+            }
+            completed_bound = b as i64;
+        }
+        if let Some(e) = merr {
+            rep.machinery_error = Some(e);
+            return rep;
+        }
+        if timed_out {
+            rep.caps_hit.push(format!("{}: time/execution cap hit; all schedules with <= {} preemptions were completed", sc.name, completed_bound));
+            rep.exhaustive = false;
+        }
+        rep.evaluations += total;
+        rep.notes.push(format!("{}: {} distinct schedules explored, preemption bound completed: {} (target {}), {} violating", sc.name, total, completed_bound, bound, nviol));
+    }
+    rep.distinct_nontrivial = outcomes.len() as u64;
+    rep.add("distinct_event_sequences", outcomes.len() as u64);
     rep
 }
